@@ -137,9 +137,11 @@ package transaction
 //@ ensures[src] forall(i, 0, len(result), exists(j, 0, len(t.Attributes), result[i] == t.Attributes[j]))
 //@ ensures[empty] (len(result) == 0) == !exists(j, 0, len(t.Attributes), t.Attributes[j].Type == typ)
 //@ ensures[fresh] len(result) > 0 ==> fresh(result)
-// Every attribute of the type is returned: stated, used by callers, not proved here (the
-// forall-exists preservation step is beyond the solvers; listed as an assumption in the evidence).
-//@ ensures[all!] forall(j, 0, len(t.Attributes), t.Attributes[j].Type == typ ==> exists(i, 0, len(result), result[i] == t.Attributes[j]))
+// Every attribute of the type is returned - at the position given by the number of attributes of
+// the type before it (the explicit position is what lets the solvers find the witness).
+//@ spec cntBefore(t *Transaction, typ AttrType, k int) int decreases k = ite(k <= 0, 0, cntBefore(t, typ, k-1) + ite(t.Attributes[k-1].Type == typ, 1, 0))
+//@ ensures[all] forall(j, 0, len(t.Attributes), t.Attributes[j].Type == typ ==> exists(i, 0, len(result), result[i] == t.Attributes[j]))
+//@ loop 0 invariant[all] len(result) == cntBefore(t, typ, $i) && forall(j, 0, $i, t.Attributes[j].Type == typ ==> 0 <= cntBefore(t, typ, j) && cntBefore(t, typ, j) < len(result) && result[cntBefore(t, typ, j)] == t.Attributes[j])
 //@ ensures[wf] wfAttrs(t) ==> forall(i, 0, len(result), wfAttr(result[i]))
 //@ loop 0 invariant[typ] forall(i, 0, len(result), result[i].Type == typ && exists(j, 0, $i, result[i] == t.Attributes[j]))
 //@ loop 0 invariant[empty] (len(result) == 0) == !exists(j, 0, $i, t.Attributes[j].Type == typ)
